@@ -1232,8 +1232,26 @@ def subscript(it, base, idx):
         return LockRef(base, idx)
     if isinstance(base, SymList):
         if isinstance(idx, slice):
-            if idx.step is not None or idx.start not in (None, 0):
-                raise Unsupported('general slice of array-list')
+            if idx.step is not None:
+                raise Unsupported('slice of array-list with a step')
+            if idx.start not in (None, 0):
+                # lst[lo:hi]: fresh array shifted by lo (definitional axiom)
+                lo = as_int(idx.start)
+                lz = lo if z3.is_expr(lo) else z3.IntVal(lo)
+                lo_n = z3.If(lz >= 0, z3.If(lz < base.n, lz, base.n), z3.If(base.n + lz > 0, base.n + lz, 0))
+                if idx.stop is None:
+                    hi_n = base.n
+                else:
+                    hz0 = as_int(idx.stop)
+                    hz0 = hz0 if z3.is_expr(hz0) else z3.IntVal(hz0)
+                    hi_n = z3.If(hz0 >= 0, z3.If(hz0 < base.n, hz0, base.n), z3.If(base.n + hz0 > 0, base.n + hz0, 0))
+                n3 = z3.If(hi_n > lo_n, hi_n - lo_n, 0)
+                arr3 = it.run.fresh('slice', base.arr.sort())
+                jj = z3.Int('j!sl')
+                it.run.axiom(z3.ForAll([jj], z3.Implies(z3.And(jj >= 0, jj < n3), arr3[jj] == base.arr[jj + lo_n])))
+                r = SymList(z3.simplify(n3), arr3, base.elem)
+                r.parent_slice = (base, lo_n)
+                return r
             if idx.stop is None:
                 return SymList(base.n, base.arr, base.elem)
             hi = as_int(idx.stop)
@@ -1246,6 +1264,21 @@ def subscript(it, base, idx):
         return base.get(pos)
     if isinstance(base, (list, tuple, str)):
         if isinstance(idx, slice):
+            if (z3.is_expr(idx.start) or z3.is_expr(idx.stop)) and idx.step is None and not isinstance(base, str) \
+                    and not (z3.is_expr(idx.stop) and idx.start in (None, 0)):
+                n = len(base)
+
+                def pick(v, default):
+                    if v is None:
+                        return default
+                    if not z3.is_expr(v):
+                        return max(0, min(n, v if v >= 0 else n + v))
+                    for k in range(n + 1):
+                        if it.truth(zor(v == k, v == k - n) if k < n else v >= n):
+                            return k
+                    return 0
+                lo_c, hi_c = pick(idx.start, 0), pick(idx.stop, n)
+                return base[lo_c:hi_c]
             if z3.is_expr(idx.stop) and idx.start in (None, 0) and idx.step is None and not isinstance(base, str):
                 # concrete spine, symbolic upper bound: fork over the resulting length
                 hi = idx.stop
@@ -1836,11 +1869,11 @@ def with_enter(it, cm):
     if isinstance(cm, LockRef):
         key = cm.key
         it.run.event('acq', cm.table.name, key)
-        it.run.locks.append((cm.table.name, key))
+        it.run.locks.append((cm.table.name, key, len(it.run.events)))
         return None
     if isinstance(cm, LockObj):
         it.run.event('acq', cm.name, None)
-        it.run.locks.append((cm.name, None))
+        it.run.locks.append((cm.name, None, len(it.run.events)))
         return None
     if isinstance(cm, Opaque):
         return cm
